@@ -206,6 +206,47 @@ func (nm *NodeMachine) Apply(op NOp) error {
 				nm.Stat["tx-refused-stale"]++
 			}
 		}
+	case "txbatch":
+		// several candidates assembled against the same pending state are all verified first and
+		// only then applied one after the other (what concurrent clients do): DoTx must judge each
+		// against the state the earlier ones left
+		s0 := nm.PoolState()
+		var built []*pb.Transaction
+		for i := range op.Txs {
+			tx, _ := nm.buildOn(&op.Txs[i], s0, true)
+			if tx == nil {
+				continue
+			}
+			sub := CloneTx(tx)
+			ok, verr := n.State.VerifyTx(sub)
+			want := s0.Check(tx, nm.ledgerHeight())
+			if (ok && verr == nil) != (want == nil) {
+				return fmt.Errorf("VerifyTx(%s)=%v/%v, model verdict on the pending state: %v", Hex8(tx.Txid), ok, verr, want)
+			}
+			if ok && verr == nil {
+				built = append(built, tx)
+			}
+		}
+		for _, tx := range built {
+			want := nm.PoolState().Check(tx, nm.ledgerHeight())
+			derr := n.State.DoTx(CloneTx(tx))
+			if want == nil && derr != nil {
+				return fmt.Errorf("DoTx(%s) refused (%v) although every input is current: %s", Hex8(tx.Txid), derr, DescribeTx(tx))
+			}
+			if want != nil && derr == nil {
+				return fmt.Errorf("DoTx(%s) admitted a verified transaction whose inputs are no longer current (%v): %s", Hex8(tx.Txid), want, DescribeTx(tx))
+			}
+			if derr == nil {
+				nm.Pool = append(nm.Pool, tx)
+				nm.Stat["tx-admitted"]++
+			} else {
+				nm.Stat["tx-refused"]++
+				nm.Stat["batch-tx-refused-at-dotx"]++
+				if errors.Is(want, ErrStale) {
+					nm.Stat["tx-refused-stale"]++
+				}
+			}
+		}
 	case "mine":
 		if nm.Ptr != m.Tip {
 			nm.LastOutcome = "skipped"
